@@ -218,6 +218,19 @@ CLAIMED = {
         "the shipped no-op; BIP-340.",
         "DESIGN.md §6 C14",
     ),
+    "C06": (
+        "Lean 4 theorems on the storage models (SQL: changed=true implies stored and not previously stored, resubmission changes nothing, refusal leaves the tables as they were; LMDB: duplicate task is the identity, a committed fresh add leaves the record, an aborted transaction is the identity) + differential correspondence of whole sessions through web.start_client",
+        "Proof: NostrRelay/Props/C06.lean. Tie: sessions of EVENT messages through the real start_client on both backends; "
+        "after every message (loop settled, LMDB writer drained) the stored set / key list equals the model's and the OK "
+        "flag equals the model outcome. Search: exactly one OK per EVENT; OK=true implies retrievable, or ephemeral and "
+        "seen by an observer, or superseded; OK=false implies stored set, keyspace and observer untouched and a reason "
+        "given; valid events are refused only as duplicates; resubmissions change nothing and are not re-broadcast. Two "
+        "defects found here were repaired (LMDB acknowledged-but-lost / duplicates; SQL resubmission deleting older "
+        "versions).",
+        "Trusted: the 'one OK frame per EVENT' part is observed on the real handler, its proof belongs to the protocol "
+        "model (C13/C19); quiescence is established by settling the loop and draining the writer.",
+        "DESIGN.md §6 C06",
+    ),
 }
 
 NOT_YET = "not reached yet in this round (model/tie not built); see DESIGN.md §10 staging — no weaker technique is substituted"
